@@ -243,7 +243,19 @@ def g1(rep, src):
                 rep.undecidable("G1", key, "filter argument is not a one-parameter closure", f.where())
                 continue
             rv = pat_binds(cl["params"][0])[0]
-            atoms, conns = conj_atoms(cl["body"])
+            # `let (left_property, right_property) = (left.attributes().output(), right.attributes().output());`: each name is its component
+            tl = {}
+            for s_ in stmts:
+                if s_["k"] == "let" and s_["pat"]["k"] == "tuple" and s_.get("init") is not None and s_["init"]["k"] == "tuple" and len(s_["init"]["elems"]) == len(s_["pat"]["elems"]):
+                    for pe, ie in zip(s_["pat"]["elems"], s_["init"]["elems"]):
+                        if pe["k"] == "ident":
+                            tl[pe["name"]] = ie
+            body_g1 = cl["body"]
+            if tl:
+                from .canon import subst as _subst_g1
+
+                body_g1 = _subst_g1(body_g1, tl)
+            atoms, conns = conj_atoms(body_g1)
             pairs = []
             ok = True
             # eliminator: sets of outputs bound by lets
@@ -437,6 +449,14 @@ def dispatch_arms(f):
     return arms
 
 
+def _needs_canon(f, src):
+    """the generic visitor uses a private free helper of the file (`with_selected_rule(acceptor, rule, inputs)`) or names `acceptor.inputs()` / `acceptor.attributes()` once for several arms: read the canonical body"""
+    helpers = {h.name for h in src.fns if h.file == RR and not h.self_ty and not h.test and h.body and (h.node.get("vis") or "") == ""}
+    if any(c["f"]["k"] == "path" and len(c["f"]["segs"]) == 1 and c["f"]["segs"][0] in helpers for c in find(f.body, "call")):
+        return True
+    return any(l.get("init") is not None and l["init"]["k"] == "mcall" and l["init"]["m"] in ("inputs", "attributes") and not l["init"]["args"] for l in find(f.body, "let"))
+
+
 def g2(rep, src):
     rep.rule(
         "G2",
@@ -450,9 +470,9 @@ def g2(rep, src):
     from .canon import canon_view as _cv2
 
     f = inline_local_closures(visitor_fn(src, "SelectRewritingRuleVisitor"))
-    if not [m for m in find(f.body, "match") if m["e"]["k"] == "mcall" and m["e"]["m"] == "relation"]:
+    if not [m for m in find(f.body, "match") if m["e"]["k"] == "mcall" and m["e"]["m"] == "relation"] or _needs_canon(f, src):
         # `let relation = acceptor.relation(); match relation { .. }` and a free helper `with_selected_rule(relation, rule, inputs)`: read through
-        f = inline_local_closures(_cv2(visitor_fn(src, "SelectRewritingRuleVisitor"), src, multi_use=True))  # `let with_rule = |rule, inputs| Arc::new(RelationWithRewritingRule::new(..));` read through
+        f = inline_local_closures(_cv2(f, src, multi_use=True))  # `let with_rule = |rule, inputs| Arc::new(RelationWithRewritingRule::new(..));` read through
     ps = [p["pat"]["name"] for p in f.params if not p.get("self")]
     acc, deps = ps[0], ps[1]
     arms = dispatch_arms(f)
@@ -529,10 +549,10 @@ def g4(rep, src):
 
     for bound in ("MapRewritingRulesVisitor", "RewriteVisitor"):
         f = inline_local_closures(visitor_fn(src, bound))
-        if not [m for m in find(f.body, "match") if m["e"]["k"] == "mcall" and m["e"]["m"] == "relation"]:
+        if not [m for m in find(f.body, "match") if m["e"]["k"] == "mcall" and m["e"]["m"] == "relation"] or _needs_canon(f, src):
             from .canon import canon_view as _cv3
 
-            f = inline_local_closures(_cv3(visitor_fn(src, bound), src, multi_use=True))
+            f = inline_local_closures(_cv3(f, src, multi_use=True))  # local closures first (above), then locals and helpers
         # `let visited_input = |k| dependencies.get(acceptor.inputs()[k].deref()).clone();` read through
         ps = [p["pat"]["name"] for p in f.params if not p.get("self")]
         acc, deps = ps[0], ps[1]
